@@ -243,3 +243,61 @@ def ctype_test(c):
                 x = x.ch[0]
             return cls, x
     return None
+
+
+def guarded_at(func, target, guard_edge, kills):
+    """True when on every path to `target` (a node) a guard edge has been crossed after the last
+    killing element.  guard_edge(block) -> successor index that establishes the guard, or None;
+    kills(elem) -> True when elem invalidates it (e.g. the index variable changes)."""
+    def transfer(st, e):
+        return False if kills(e) else st
+
+    def edge(st, blk, si):
+        g = guard_edge(blk)
+        if g is not None and si == g:
+            return True
+        return st
+    ins = C.forward_dataflow(func, False, transfer, lambda a, b: a and b, edge_transfer=edge)
+    for bid, st in ins.items():
+        if st is None:
+            continue
+        for e in func.blocks[bid].elems:
+            if e is target or any(x is target for x in e.walk()):
+                return st
+            st = transfer(st, e)
+    return False
+
+
+def modifies_var(e, var_id):
+    if e.k == 'UnaryOperator' and e.get('op') in ('++', '--'):
+        return (decl_of(e.ch[0]) or {}).get('id') == var_id and strip(e.ch[0]).k == 'DeclRefExpr'
+    if e.k in ('BinaryOperator', 'CompoundAssignOperator') and (e.get('op') == '=' or e.k == 'CompoundAssignOperator'):
+        return strip(e.ch[0]).k == 'DeclRefExpr' and (decl_of(e.ch[0]) or {}).get('id') == var_id
+    if e.k == 'DeclStmt':
+        return any(d['id'] == var_id for d in e['decls'])
+    return False
+
+
+def not_empty_string_edge(blk, mentions):
+    """successor index of blk taken when the string expression tested is NOT the empty string:
+    strcmp(X, "") != 0, X[0] != 0, *X -- for an X for which mentions(X node) holds; else None"""
+    c = strip(blk.cond) if blk.cond is not None else None
+    if c is None or len(blk.all_succs) != 2:
+        return None
+
+    def is_x(n):
+        if n.k == 'CallExpr' and n.get('callee') in ('strcmp', 'strncmp', 'strlen'):
+            if n['callee'] == 'strlen':
+                return mentions(n)
+            lits = [a for a in n.ch[1:] if a is not None and strip(a).k == 'StringLiteral' and strip(a).get('s') == '']
+            return bool(lits) and mentions(n)
+        if n.k == 'ArraySubscriptExpr' and strip(n.ch[1]).get('v') == 0 and 'char' in (n.get('ct') or '') and \
+                not (n.get('ct') or '').rstrip().endswith('*'):
+            return mentions(n)
+        if n.k == 'UnaryOperator' and n.get('op') == '*' and (n.get('ct') or '').replace('const ', '').strip() == 'char':
+            return mentions(n)
+        return False
+    ce = compare_edges(blk, is_x)
+    if ce is None or ce[0] != 0:
+        return None
+    return ce[2]     # the edge where X != 0: strcmp differs / first character is not NUL
